@@ -48,6 +48,15 @@ def a64_pool(thorough):
                   "style": "-"})
     lists.append({"t": "reglist", "members": [v(4, 4, "s"), v(7, 4, "s")], "range": True,
                   "style": " - "})
+    lists.append({"t": "reglist", "members": [v(28, 4, "s"), v(31, 4, "s")], "range": True,
+                  "style": " - "})
+    lists.append({"t": "reglist", "members": [v(30, 2, "d"), v(31, 2, "d")], "range": True,
+                  "style": "-"})
+    lists.append({"t": "reglist", "members": [zs(29, "d"), zs(31, "d")], "range": True,
+                  "style": " - "})
+    lists.append({"t": "reglist", "members": [v(0, 16, "b"), v(3, 16, "b")], "range": True,
+                  "style": "-"})
+    lists.append({"t": "reglist", "members": [v(31, 4, "s")], "style": ","})
     lists.append({"t": "reglist", "members": [zs(0, "d")], "style": ","})
     lists.append({"t": "reglist", "members": [zs(2, "s"), zs(3, "s")], "style": ","})
     for idx in (0, 1, 3):
